@@ -537,13 +537,14 @@ func c06AllHostsScheduled(c *Ctx) {
 }
 
 // c06WeightsReachScheduler (R3, written proactively): the weights the scheduler sees are the hosts' configured weights.
-//   equal-weights-complete   the "all weights equal" test that lets refresh skip the scheduler compares every host of
-//                            the set (a loop from 1 to Size that returns false on the first difference and true only
-//                            after the loop): a shortened test serves unequal weights round-robin;
-//   wrr-weight-source        WRRLoadBalancer.hostWeight returns fixHostWeight(float64(host.Weight())) of the very item
-//                            it was given;
-//   clamp-identity-inside    fixHostWeight returns its argument unchanged on the path where neither bound test holds,
-//                            and the bounds are the v2.MinHostWeight / v2.MaxHostWeight constants.
+//
+//	equal-weights-complete   the "all weights equal" test that lets refresh skip the scheduler compares every host of
+//	                         the set (a loop from 1 to Size that returns false on the first difference and true only
+//	                         after the loop): a shortened test serves unequal weights round-robin;
+//	wrr-weight-source        WRRLoadBalancer.hostWeight returns fixHostWeight(float64(host.Weight())) of the very item
+//	                         it was given;
+//	clamp-identity-inside    fixHostWeight returns its argument unchanged on the path where neither bound test holds,
+//	                         and the bounds are the v2.MinHostWeight / v2.MaxHostWeight constants.
 func c06WeightsReachScheduler(c *Ctx) {
 	pkg := "pkg/upstream/cluster"
 	if fn := c.F(pkg, "hostWeightsAreEqual"); fn == nil {
